@@ -582,7 +582,9 @@ class Analysis:
         if x != y and x != z:
             vector.append(Polynomial(ZERO_MWP))
 
-        if y is None or z is None:
+        if y is None and z is None:
+            pass  # x = c1 (op) c2: no variable flows into x
+        elif y is None or z is None:
             vector.append(Polynomial.from_scalars(
                 index, UNIT_MWP, UNIT_MWP, UNIT_MWP))
 
